@@ -1,6 +1,6 @@
 (* Proofs about Values/Gate.v. *)
 From Coq Require Import List String Bool ZArith.
-From Helm Require Import Values.Tree Values.Schema Values.Scope Values.Deps Values.Gate.
+From Helm Require Import Values.Tree Values.Schema2 Values.Schema Values.Scope Values.Deps Values.Gate.
 Import ListNotations.
 Local Open Scope string_scope.
 
@@ -197,3 +197,87 @@ Lemma install_ok_example :
   install_trace (fun _ _ => true) ex_flags (ex_top []) []
   = ([KIsReachable; SRead; KGetCapabilities; KBuild; KBuild; KCreateNamespace; SCreate; KWait; SUpdate], Done).
 Proof. vm_compute. reflexivity. Qed.
+
+(* ---------- schemas given as documents (Values/Schema2.v) ---------- *)
+
+Lemma valid_doc : forall d v, valid (SDoc d) v = true <-> doc_verdict d v = VOk.
+Proof. intros. simpl. destruct (doc_verdict d v); split; intros H; try discriminate; reflexivity. Qed.
+
+(* the chart's own document does not accept its values: the gate fails and names the chart *)
+Lemma doc_rejected_here : forall c vals v d,
+  cschema c = Some (SDoc d) -> CoalesceValues c vals = Ok v -> doc_verdict d (VMap v) <> VOk ->
+  exists names, to_render_values c vals false = RVSchemaErr names /\ In (cname c) names.
+Proof.
+  intros c vals v d Hs Hc Hv.
+  assert (Hr : Rejects c v (cname c)).
+  { apply (RejHere c v (SDoc d) Hs). destruct (valid (SDoc d) (VMap v)) eqn:E; [|reflexivity].
+    apply valid_doc in E. contradiction. }
+  destruct (proj2 (gate c vals false) (conj eq_refl (ex_intro _ v (ex_intro _ _ (conj Hc Hr))))) as (names & Hn).
+  exists names. split; [exact Hn|].
+  destruct (gate_names _ _ _ _ Hn) as (_ & _ & v' & Hc' & Hiff). rewrite Hc in Hc'. injection Hc' as <-.
+  now apply Hiff.
+Qed.
+
+(* ... the same for a kept subchart, on the table found under its name *)
+Lemma doc_rejected_below : forall c vals v sub sv d,
+  In sub (cdeps c) -> cschema sub = Some (SDoc d) -> CoalesceValues c vals = Ok v ->
+  mget (cname sub) v = Some (VMap sv) -> doc_verdict d (VMap sv) <> VOk ->
+  exists names, to_render_values c vals false = RVSchemaErr names /\ In (cname sub) names.
+Proof.
+  intros c vals v sub sv d Hin Hs Hc Hg Hv.
+  assert (Hr : Rejects c v (cname sub)).
+  { apply (RejBelow c v sub sv (cname sub) Hin Hg). apply (RejHere sub sv (SDoc d) Hs).
+    destruct (valid (SDoc d) (VMap sv)) eqn:E; [|reflexivity]. apply valid_doc in E. contradiction. }
+  destruct (proj2 (gate c vals false) (conj eq_refl (ex_intro _ v (ex_intro _ _ (conj Hc Hr))))) as (names & Hn).
+  exists names. split; [exact Hn|].
+  destruct (gate_names _ _ _ _ Hn) as (_ & _ & v' & Hc' & Hiff). rewrite Hc in Hc'. injection Hc' as <-.
+  now apply Hiff.
+Qed.
+
+(* end to end: the processed chart's document rejects the final values => install / upgrade fail
+   naming the chart, with nothing stored and no mutating cluster call *)
+Lemma doc_install_nothing_sent : forall compat fl c vals c' v d,
+  process_dependencies compat c vals = Ok c' -> skip_schema fl = false ->
+  CoalesceValues c' vals = Ok v -> cschema c' = Some (SDoc d) -> doc_verdict d (VMap v) <> VOk ->
+  (has_crds c' = false \/ skip_crds fl = true \/ client_only fl = true \/ dry_run fl = true) ->
+  exists tr names, install_trace compat fl c vals = (tr, FailSchema names)
+                   /\ In (cname c') names /\ quiet tr = true.
+Proof.
+  intros compat fl c vals c' v d Hp Hsk Hc Hs Hv Hcr.
+  destruct (doc_rejected_here c' vals v d Hs Hc Hv) as (names & Hn & Hin).
+  rewrite <- Hsk in Hn.
+  destruct (install_nothing_sent compat fl c vals c' names Hp Hn Hcr) as (tr & Ht & Hq).
+  now exists tr, names.
+Qed.
+
+Lemma doc_upgrade_nothing_sent : forall compat fl c vals c' v d,
+  process_dependencies compat c vals = Ok c' -> skip_schema fl = false ->
+  CoalesceValues c' vals = Ok v -> cschema c' = Some (SDoc d) -> doc_verdict d (VMap v) <> VOk ->
+  exists tr names, upgrade_trace compat fl c vals = (tr, FailSchema names)
+                   /\ In (cname c') names /\ quiet tr = true.
+Proof.
+  intros compat fl c vals c' v d Hp Hsk Hc Hs Hv.
+  destruct (doc_rejected_here c' vals v d Hs Hc Hv) as (names & Hn & Hin).
+  rewrite <- Hsk in Hn.
+  destruct (upgrade_nothing_sent compat fl c vals c' names Hp Hn) as (tr & Ht & Hq).
+  now exists tr, names.
+Qed.
+
+(* non-vacuity with a 2020-12 keyword and no "$schema": a subchart required under the alias "web"
+   whose document says dependentRequired {tlsKey: [tlsCert]} *)
+Definition ex_tls_doc : val :=
+  VMap [("type", VStr "object"); ("dependentRequired", VMap [("tlsKey", VList [VStr "tlsCert"])])].
+Definition ex_tls_sub : chart :=
+  Chart "sub" "1.0.0" [("port", VNum 80)] (Some (SDoc ex_tls_doc)) [] None ["templates/cm.yaml"] [].
+Definition ex_tls_top : chart :=
+  Chart "top" "1.0.0" [] None [ex_tls_sub] (Some [mkDep "sub" "*" "" [] "web" true []]) ["templates/cm.yaml"] [].
+Definition ex_tls_vals : vmap := [("web", VMap [("tlsKey", VStr "k")])].
+
+Lemma doc_gate_example :
+  install_trace (fun _ _ => true) ex_flags ex_tls_top ex_tls_vals
+  = ([KIsReachable; SRead; KGetCapabilities], FailSchema ["web"])
+  /\ upgrade_trace (fun _ _ => true) ex_flags ex_tls_top ex_tls_vals
+     = ([KIsReachable; SRead; KGetCapabilities], FailSchema ["web"])
+  /\ snd (install_trace (fun _ _ => true) ex_flags ex_tls_top
+                        [("web", VMap [("tlsKey", VStr "k"); ("tlsCert", VStr "c")])]) = Done.
+Proof. vm_compute. repeat split; reflexivity. Qed.
